@@ -204,10 +204,10 @@ def isect_nontrivial(c):
 # ------------------------------------------------------------------------------------------- tangent / polar / dual
 @st.composite
 def tpd_case(draw, tier="quick"):
-    what = draw(st.sampled_from(["tangent_at", "tangent_from_outside", "polar", "dual_generic", "dual_class", "is_tangent_class"]))
+    what = draw(st.sampled_from(["tangent_at", "tangent_from_outside", "polar", "dual_generic", "dual_class", "is_tangent_class", "tangency_after_move"]))
     d = 2 if what in ("tangent_from_outside", "polar") else draw(st.sampled_from([2, 3]))
     return {"d": d, "what": what, "sig": draw(st.sampled_from(SIGS[d][:1] + SIGS[d][2:] if d == 2 else SIGS[d][:2])), "n": draw(Z.params(9)), "i": draw(st.integers(0, 5)),
-            "p": draw(C.hpoint(d, 5)), "q": draw(C.hpoint(d, 5)), "cls": draw(st.sampled_from(["Circle", "Sphere2", "Sphere3"] if what == "is_tangent_class" else ["Quadric", "Conic", "Circle", "Ellipse", "Sphere2", "Sphere3", "QuadricCollection"])),
+            "p": draw(C.hpoint(d, 5)), "q": draw(C.hpoint(d, 5)), "cls": draw(st.sampled_from(["Circle", "Sphere2", "Sphere3"] if what in ("is_tangent_class", "tangency_after_move") else ["Quadric", "Conic", "Circle", "Ellipse", "Sphere2", "Sphere3", "QuadricCollection"])),
             "c": [draw(C.ints(6)) for _ in range(3)], "r": draw(st.sampled_from([1, 2, 3, 5])), "u": draw(st.integers(0, len(UNIT) - 1)), "truth": draw(st.booleans()), "s": draw(C.scale())}
 
 
@@ -349,6 +349,39 @@ def run_tpd(c):
             ck.add(f)
         else:
             ck.check(C.peq_all(dd.array, Q.array, 2, 1e-7) and dd.is_dual is False, f"dual:{name}:involution")
+        return ck.result()
+    if what == "tangency_after_move":
+        # a tangency query, then the quadric is moved, then the query is asked for the moved quadric (multi-step history)
+        u = UNIT[c["u"]]
+        if dim == 2:
+            nrm = np.array([u[0] / u[2], u[1] / u[2]])
+        else:
+            w = UNIT[(c["u"] + 3) % len(UNIT)]
+            nrm = np.array([u[0] / u[2] * w[0] / w[2], u[1] / u[2] * w[0] / w[2], w[1] / w[2]])
+        cc = ctr[:dim]
+        mk = lambda center, dist: (Line if dim == 2 else Plane)(np.append(nrm, -(nrm @ center) - dist))  # noqa: E731
+        H = mk(cc, r)
+        first, f = call(f"is_tangent:{name}", Q.is_tangent, H)
+        if f:
+            return [f]
+        ck.check(bool(first), f"after-move:{name}:before", bool(first))
+        shift = np.array(c["p"][:dim], float)
+        if abs(nrm @ shift) < 1e-9 or abs(nrm @ shift - 2 * r) < 1e-9:
+            raise Skip("shift along the tangent, or onto the mirror position where the old tangent touches again")
+        moved, f = call(f"move:{name}", lambda: Q + Point(*shift))
+        if f:
+            return [f]
+        r1, f1 = call(f"is_tangent:{name}:moved", moved.is_tangent, mk(cc + shift, r))
+        r2, f2 = call(f"is_tangent:{name}:moved", moved.is_tangent, H)
+        if f1 or f2:
+            return ck.result() + [z for z in (f1, f2) if z]
+        ck.check(bool(r1), f"after-move:{name}:moved-tangent-touches-moved-quadric", bool(r1))
+        ck.check(not bool(r2), f"after-move:{name}:old-tangent-does-not-touch-moved-quadric", bool(r2))
+        dd, f = call(f"dual.dual:{name}:moved", lambda: moved.dual.dual)
+        if f:
+            ck.add(f)
+        else:
+            ck.check(C.peq_all(dd.array, moved.array, 2, 1e-7), f"after-move:{name}:dual-involution")
         return ck.result()
     if what == "is_tangent_class":
         if name not in ("Circle", "Sphere2", "Sphere3"):
